@@ -31,7 +31,7 @@ claim("C17", "exploration",
 
 claim("C06", "exploration",
   "Seeded simulation of call histories over tape-generated plan guests on both engines: three instances (two of one compiled module, one importing the first), 5-30 top-level calls, host calls that panic / raise runtime errors / close modules / re-enter guests at any nesting depth, guest traps of seven kinds, proc_exit, stack overflow. An executable plan model predicts error kind, results and the complete observable state (cells, globals, memory size, closed flag) of every instance after every call; worker death is a violation. Sampling, not proof.",
-  "Trusted: the plan model (about 250 lines) and the wasm builder; host function is the simulator's; stack-trace text not judged. Known finding: unbounded host re-entrancy crashes the process (confirmed in a sacrificial child each run).",
+  "Trusted: the plan model (about 250 lines) and the wasm builder; host function is the simulator's; stack-trace text not judged. Known findings: unbounded host re-entrancy crashes the process (confirmed in a sacrificial child each run); code of an exited instance that reaches a WASI function ends in a recovered nil dereference instead of the exit error (class exit-then-wasi).",
   "deterministic simulation: tape-driven call histories with scripted host faults vs executable plan model, process-survival watchdog, tape shrinking + replay",
   "DESIGN.md §5 C06")
 claim("C20", "exploration",
